@@ -580,6 +580,42 @@ def run_mock_trace(pid, tier, t0, mocks=None):
     return finish(pid, tier, LEVEL_MC, cov, COMMON_ASSUME, t0, divs)
 
 
+APALACHE_INV = {"C02": ("KthResponseArith", "OffByOne",
+                        "for chains of up to three segments with ARBITRARY natural counts and every k: the responder the index arithmetic finds for the k-th match (greatest start <= k - 1, last among equal starts) belongs to the segment the statement names (first segment whose cumulative count reaches k; the last one if the chain is open-ended), and every other responder with the same start has length zero"),
+                "C04": ("SlotsPartition", "SlotsInclusive",
+                        "for up to three ordered clauses with ARBITRARY exact counts and every claimed global index s: the cumulative slot ranges give s exactly one owner, the clause holding position s of the flattened expected sequence, and no owner once the sequence is exhausted")}
+
+
+def run_apalache_arith(pid, tier, t0):
+    """Unbounded-integer part: Apalache (SMT) decides the index arithmetic of tla/apalache/BuilderArith.tla for all naturals;
+    a deliberately wrong variant must be refuted (otherwise the encoding is vacuous)."""
+    import subprocess, shutil
+    inv, sens, rule = APALACHE_INV[pid]
+    if shutil.which("apalache-mc") is None:
+        raise ToolError("apalache-mc is not on PATH")
+    out = os.path.join(vf.WORK, "apalache_" + pid.lower())
+    res = {}
+    for name in (inv, sens):
+        p = subprocess.run(["timeout", "900", "apalache-mc", "check", "--length=0", "--inv=" + name, "--out-dir=" + out, "--write-intermediate=false", "BuilderArith.tla"],
+                           cwd=os.path.join(vf.TLA, "apalache"), capture_output=True, text=True)
+        txt = p.stdout + p.stderr
+        res[name] = "holds" if "The outcome is: NoError" in txt else "refuted" if "The outcome is: Error" in txt else "unknown"
+        if res[name] == "unknown":
+            log(txt[-1500:])
+            raise ToolError("apalache-mc gave no verdict on %s" % name)
+    if res[sens] != "refuted":
+        raise ToolError("Apalache did not refute the deliberately wrong variant %s: the encoding is vacuous" % sens)
+    divs = []
+    if res[inv] != "holds":
+        # the specification's own arithmetic is wrong: a model error, not a verdict about the code
+        raise ToolError("Apalache refutes %s: the builder / assembler arithmetic of the specification is wrong" % inv)
+    cov = {"states": 1, "transitions": 1, "traces_validated_against_impl": 0, "evaluations": 2, "distinct_nontrivial": 2, "exhaustive": True, "samples": [res],
+           "rule": rule + " (Apalache, unbounded integers, everything chosen in Init; bound to the code only through the bounded replay of the same definitions)",
+           "instances": [{"name": "apalache/BuilderArith.tla", "invariant": inv, "verdict": res[inv], "sensitivity": {sens: res[sens]}}]}
+    return finish(pid, tier, LEVEL_MC, cov, ["symbolic part: chains / clause lists of length <= 3; counts, k and the claimed index range over all naturals"], t0, divs)
+
+
+
 def shapes_inst(fam, maxlen):
     return {"module": "MC_Shapes", "spec": "Spec", "constants": {"TypeFam": "<-" + fam, "MaxLen": maxlen, "EmitOn": True},
             "invariants": ["TwoDefinitionsAgree", "Emit"]}
@@ -998,6 +1034,8 @@ def run_property(pid, tier, t0):
     if pid in ("C01", "C02", "C03", "C04"):
         parts = [("enumerated behaviours (Mock.tla, replay)", mock),
                  ("random larger configurations (trace validation, MockTrace.tla)", lambda: run_mock_trace(pid, tier, t0))]
+        if pid in APALACHE_INV:
+            parts.append(("index arithmetic for unbounded counts (Apalache, tla/apalache/BuilderArith.tla)", lambda: run_apalache_arith(pid, tier, t0)))
         if tier == "thorough" and pid in ("C01", "C03"):
             parts.append(("the repository's own tests as traces (event hook H3 on a scratch copy, TestTrace.tla)", lambda: run_repo_tests_as_traces(pid, tier, t0)))
         return composite(pid, tier, t0, parts)
